@@ -262,7 +262,7 @@ def default_search_rule(ctx, run, dfi):
                 problems.append("the tensor the criterion is evaluated on inside the search depends on the sample values")
                 break
         # (d) degenerate bracket
-        guards = [g for r in res for g in r["events"] if g["kind"] == "guard" and g.get("fn", "").endswith("bisect.bisect")]
+        guards = [g for r in res for g in r["events"] if g["kind"] == "guard"]   # wherever the search validates its bracket (bisect itself or a helper)
         strict = any(_is_cmp(g["cond"], lo, hi, {"lt"}, negated=True) for g in guards)
         plain = False
         try:
